@@ -6,6 +6,7 @@ package vsync
 import (
 	"fmt"
 	"reflect"
+	"sort"
 	"sync"
 
 	"tags.cncf.io/container-device-interface/verifshim/sched"
@@ -187,6 +188,17 @@ func (w *WaitGroup) Wait() {
 // Go replaces a `go` statement: f and its arguments were evaluated at the spawn site.
 func Go(name string, f func()) {
 	sched.Go(name, true, 5, f)
+}
+
+// SortedKeys returns the keys of a map in a deterministic order (used by the rewritten
+// range-over-map statements of the code under test).
+func SortedKeys[M ~map[K]V, K comparable, V any](m M) []K {
+	keys := make([]K, 0, len(m))
+	for k := range m {
+		keys = append(keys, k)
+	}
+	sort.Slice(keys, func(i, j int) bool { return fmt.Sprint(keys[i]) < fmt.Sprint(keys[j]) })
+	return keys
 }
 
 // ---- channels ---------------------------------------------------------------------------
